@@ -53,6 +53,7 @@ inductive Val where
   | b (bs : Bytes)                                -- []byte and string (UTF-8 bytes)
   | is (xs : List Int)                            -- []int32
   | m (kvs : Option (List (Bytes × Value)))       -- *value.MapValue (none = nil)
+  | mn (kvs : Option (List (Bytes × Option Value))) -- a MapValue some of whose entries hold a nil value
 
 instance : Inhabited Val := ⟨.i 0⟩
 
@@ -60,6 +61,18 @@ def Val.toInt : Val → Int | .i v => v | _ => 0
 def Val.toBytes : Val → Bytes | .b bs => bs | _ => []
 def Val.toInts : Val → List Int | .is xs => xs | _ => []
 def Val.toMap : Val → Option (List (Bytes × Value)) | .m kvs => kvs | _ => none
+
+/-- `TxRecord.Write` emits an entry whose value is nil as the key with an empty TextValue -/
+def normKVs : List (Bytes × Option Value) → List (Bytes × Value)
+  | [] => []
+  | (k, some v) :: t => (k, v) :: normKVs t
+  | (k, none) :: t => (k, .text []) :: normKVs t
+
+/-- the custom-field map as `TxRecord.Write` sees it (nil values already replaced) -/
+def Val.toMapN : Val → Option (List (Bytes × Value))
+  | .m kvs => kvs
+  | .mn (some kvs) => some (normKVs kvs)
+  | _ => none
 
 /-- the primitive used for a field -/
 inductive Kind where
@@ -183,6 +196,7 @@ inductive L where
   | wrap (body : L) (attr : Option String) (rest : L)
   | fields (name : String) (rest : L)
   | bit (name : String) (mask : Nat) (body : L) (rest : L)
+  | ver (min : Nat) (v : Nat) (rest : L)          -- version byte: written `v`, the reader refuses less than `min`
 deriving DecidableEq, Repr
 
 /-- bytes of the optional trailing map of a `wrap` -/
@@ -211,8 +225,9 @@ def L.write : L → Rec → Bytes
     (if (x cond).toInt ≠ 0 then flag :: body.write x else [0]) ++ rest.write x
   | .dflt nm k _ _ rest, x => k.enc (x nm) ++ rest.write x
   | .wrap body attr rest, x => encBlob (body.write x ++ attrBytes attr x) ++ rest.write x
-  | .fields nm rest, x => encFields (x nm).toMap ++ rest.write x
+  | .fields nm rest, x => encFields (x nm).toMapN ++ rest.write x
   | .bit nm mask body rest, x => (if bitSet (x nm) mask then body.write x else []) ++ rest.write x
+  | .ver _ v rest, x => v :: rest.write x
 
 def readFlat : List (String × Kind) → Env → D Env
   | [], e => D.pure e
@@ -263,6 +278,8 @@ def L.read : L → Env → D Env
       else rest.read e)
   | .bit nm mask body rest, e =>
     D.bind (if bitSet (e.get nm) mask then body.read e else D.pure e) (fun e' => rest.read e')
+  | .ver min _ rest, e =>
+    D.bind (D.ofP (rdU 1)) (fun b => if b < min then D.fail else rest.read e)   -- panic("not supported version …")
 
 def mapEnv (nm : String) : Option (List (Bytes × Value)) → Env → Env
   | some kvs, e => (nm, .m (some kvs)) :: e
@@ -284,10 +301,11 @@ def L.expect : L → Rec → Env → Env
   | .dflt nm _ cond d rest, x, e => rest.expect x ((nm, dfl (x nm) (e.get cond) d) :: e)
   | .wrap body attr rest, x, e => rest.expect x (attrEnv attr x (body.expect x e))
   | .fields nm rest, x, e =>
-    match (x nm).toMap with
+    match (x nm).toMapN with
     | some (kv :: kvs) => rest.expect x ((nm, .m (some (kv :: kvs))) :: e)
     | _ => rest.expect x e
   | .bit nm mask body rest, x, e => rest.expect x (if bitSet (x nm) mask then body.expect x e else e)
+  | .ver _ _ rest, x, e => rest.expect x e
 
 def mapWF (V : ValueRT) : Option (List (Bytes × Value)) → Prop
   | some kvs => V.wf (.map kvs)
@@ -320,12 +338,13 @@ def L.WF (V : ValueRT) : L → Rec → Env → Prop
     (body.write x ++ attrBytes attr x).length < 2147483648 ∧ body.WF V x e ∧ attrWF V attr x ∧
     rest.WF V x (attrEnv attr x (body.expect x e))
   | .fields nm rest, x, e =>
-    fieldsWF V (x nm).toMap ∧
-    (match (x nm).toMap with
+    fieldsWF V (x nm).toMapN ∧
+    (match (x nm).toMapN with
      | some (kv :: kvs) => rest.WF V x ((nm, .m (some (kv :: kvs))) :: e)
      | _ => rest.WF V x e)
   | .bit nm mask body rest, x, e =>
     e.get nm = x nm ∧ (if bitSet (x nm) mask then body.WF V x e else True) ∧
     rest.WF V x (if bitSet (x nm) mask then body.expect x e else e)
+  | .ver min v rest, x, e => min ≤ v ∧ v < 256 ∧ rest.WF V x e
 
 end Step
